@@ -21,9 +21,14 @@ import (
 type c18 struct {
 	oracleBase
 	m *Model
+	// issued: what the issue event announced for every request found through its ID; the request a client
+	// gets from the module later (rebuilt from the compact record and its context) still says the same
+	issued map[string]evReq
 }
 
-func newC18(w *World, m *Model) *c18 { return &c18{oracleBase: newBase("C18", w), m: m} }
+func newC18(w *World, m *Model) *c18 {
+	return &c18{oracleBase: newBase("C18", w), m: m, issued: map[string]evReq{}}
+}
 
 type evCoin struct {
 	Denom  string `json:"denom"`
@@ -112,6 +117,7 @@ func (o *c18) Step(r *StepRec) []Violation {
 			o.fail("c18:lookup", "request %s: element %d of its issue event is (provider %s, fee %s, heights %d/%d), stored request is (provider %s, fee %s, heights %d/%d)",
 				short(id), index, e.Prov, efee, e.ReqH, e.ExpH, rq.Provider.String(), fee, rq.RequestHeight, rq.ExpirationHeight)
 		}
+		o.issued[id] = e
 		o.hit("request_found_by_id")
 		if index > 0 {
 			o.hit("request_found_at_index>0")
@@ -149,6 +155,34 @@ func (o *c18) liveScans(r *StepRec) {
 		ys := append([]string{}, xs...)
 		sort.Strings(ys)
 		return strings.Join(ys, ",")
+	}
+	// 0. a request looked up again later is still the one its issue event announced
+	for _, id := range sortedKeys(post.Reqs) {
+		e, ok := o.issued[id]
+		if !ok {
+			continue
+		}
+		rq, found := k.GetRequest(ctx, unhx(id))
+		if !found {
+			o.fail("c18:relookup", "request %s is stored but the module does not find it", short(id))
+			continue
+		}
+		efee, fee := "", ""
+		for _, c := range e.Fee {
+			efee += c.Amount + c.Denom
+		}
+		for _, c := range rq.ServiceFee {
+			fee += c.Amount.String() + c.Denom
+		}
+		if e.Prov != rq.Provider.String() || efee != fee || e.ReqH != rq.RequestHeight || e.ExpH != rq.ExpirationHeight {
+			o.fail("c18:relookup", "request %s looked up after %s: the module answers (provider %s, fee %s, heights %d/%d), its issue event announced (provider %s, fee %s, heights %d/%d)",
+				short(id), r.Action.Kind, rq.Provider.String(), fee, rq.RequestHeight, rq.ExpirationHeight, e.Prov, efee, e.ReqH, e.ExpH)
+		}
+	}
+	for id := range o.issued {
+		if _, ok := post.Reqs[id]; !ok {
+			delete(o.issued, id)
+		}
 	}
 	// 1. providers of an owner
 	owners := map[string][]string{}
